@@ -722,10 +722,15 @@ func (sf *SpecFile) load(path string) error {
 				return fail(fmt.Errorf("clause outside func"))
 			}
 			cur.HasMod = true
-			for _, m := range strings.Split(rest, ",") {
-				m = strings.TrimSpace(m)
-				if m != "" && m != "nothing" {
-					cur.Modifies = append(cur.Modifies, m)
+			// `modifies loc, loc, ...` or `modifies loc if cond` (one conditional location per line)
+			if strings.Contains(rest, " if ") {
+				cur.Modifies = append(cur.Modifies, strings.TrimSpace(rest))
+			} else {
+				for _, m := range splitTop(rest) {
+					m = strings.TrimSpace(m)
+					if m != "" && m != "nothing" {
+						cur.Modifies = append(cur.Modifies, m)
+					}
 				}
 			}
 		case "pure":
@@ -820,6 +825,26 @@ func (sf *SpecFile) resolveImplements() error {
 		c.Implements = nil
 	}
 	return nil
+}
+
+// splitTop splits at commas that are not nested in parentheses or brackets.
+func splitTop(s string) []string {
+	var out []string
+	d, start := 0, 0
+	for i := 0; i < len(s); i++ {
+		switch s[i] {
+		case '(', '[':
+			d++
+		case ')', ']':
+			d--
+		case ',':
+			if d == 0 {
+				out = append(out, s[start:i])
+				start = i + 1
+			}
+		}
+	}
+	return append(out, s[start:])
 }
 
 func matchParen(s string, open int) int {
